@@ -36,8 +36,8 @@ var c17PlainWords = []string{"left", "Mae", "dérive", "日本", "x_1", "#hash",
 func (c17) Thresholds(tier string) map[string]int64 {
 	th := map[string]int64{
 		"commands":                   15000,
-		"word:boolean":               1000,
-		"word:number":                2000,
+		"word:boolean":               400,
+		"word:number":                1200,
 		"word:negative-number":       500,
 		"word:hostile-string":        5000,
 		"word:plain-string":          2000,
